@@ -499,6 +499,14 @@ func (e *kvElection) attemptPriorityTakeover(payloadBytes []byte) error {
 		return fmt.Errorf("priority takeover skipped (unparsable leadership record): %w", err)
 	}
 
+	// Valid JSON that names no leader (null, {}, another application's payload)
+	// is not a leadership record: its priority is just as unknown as that of an
+	// unparsable one, and reading it as "priority 0" would preempt a live record
+	// nobody in this election wrote.
+	if currentPayload.ID == "" {
+		return fmt.Errorf("priority takeover skipped (record names no leader)")
+	}
+
 	if e.cfg.Priority <= currentPayload.Priority {
 		e.observeLeader(currentPayload.ID, entry.Revision())
 		return fmt.Errorf("current leader has equal or higher priority: %d >= %d", currentPayload.Priority, e.cfg.Priority)
